@@ -664,3 +664,87 @@ func c29Layout(ds *rbDiskSession, spec *rbSpec, s time.Time) string {
 	}
 	return b.String()
 }
+
+// ---------------------------------------------------------------------------------------------------------------
+// regression tests (plain Go) pinning the confirmed defects
+
+func c29RegressRecording(t *testing.T, videoMs, gop, audioMs, audioStartMs int, order uint64) (*rbSpec, []rbDiskSession, *Server) {
+	t.Helper()
+	dir, err := os.MkdirTemp(os.Getenv("VERIF_WORKDIR"), "c29r-")
+	if err != nil {
+		t.Fatal(err)
+	}
+	t.Cleanup(func() { os.RemoveAll(dir) })
+	spec := &rbSpec{
+		Video: "av1", Audio: "opus", PartDur: 40 * time.Millisecond, SegDur: 300 * time.Millisecond, OrderBits: order,
+		Sessions: []rbSession{rbFixedSession(time.Date(2024, 3, 5, 10, 0, 0, 0, time.UTC), videoMs, gop, audioMs, audioStartMs, 1000)},
+	}
+	built, err := rbBuild(dir, spec)
+	if err != nil {
+		t.Fatalf("builder: %v", err)
+	}
+	disk, problems := rbLoadDisk(built)
+	if len(problems) != 0 {
+		t.Fatalf("builder: %v", problems)
+	}
+	return spec, disk, rbNewServer(built.PathConfs())
+}
+
+// video every 20 ms, audio every 40 ms, window = first 300 ms of the recording: the audio sample at +280 ms lies in the
+// window but is written (one unit late) to a part after the one holding the first video sample >= +300 ms.
+func TestVerifC29RegressTailCut(t *testing.T) {
+	if kit.Known(c29KeyTailCut) {
+		t.Skip("listed as known finding")
+	}
+	spec, disk, srv := c29RegressRecording(t, 20, 5, 40, 0, 0)
+	s := disk[0].Segs[0].Start
+	for _, format := range []string{"fmp4", "mp4"} {
+		if err := c29OneGet(srv, disk, spec, s, 300*time.Millisecond, "300ms", format, 0, 1); err != nil {
+			t.Errorf("/get %s start=recording start duration=300ms: %v", format, err)
+		}
+	}
+}
+
+// window of 1 ms holding exactly one video sample (+500 ms) and no audio sample (audio at 7, 27, … ms): whether mp4
+// answers 200 or 404 depends on which traf comes last in the part.
+func TestVerifC29RegressMP4EmptyTrack(t *testing.T) {
+	if kit.Known(c29KeyMP4Flush) {
+		t.Skip("listed as known finding")
+	}
+	for _, order := range []uint64{0, ^uint64(0)} {
+		spec, disk, srv := c29RegressRecording(t, 50, 5, 20, 7, order)
+		s := spec.Sessions[0].Start.Add(500 * time.Millisecond)
+		if err := c29OneGet(srv, disk, spec, s, time.Millisecond, "1ms", "mp4", 0, 1); err != nil {
+			t.Errorf("traf order %x: /get mp4 start=+500ms duration=1ms: %v", order, err)
+		}
+		if err := c29OneGet(srv, disk, spec, s, time.Millisecond, "1ms", "fmp4", 0, 1); err != nil {
+			t.Errorf("traf order %x: /get fmp4 start=+500ms duration=1ms: %v", order, err)
+		}
+	}
+}
+
+// a segment switch happens right before a video key frame, the new segment starts at the older pending audio sample:
+// a start 1 ms before the last video sample of the previous segment falls "into" the new segment.
+func TestVerifC29RegressSegmentOverlap(t *testing.T) {
+	if kit.Known(c29KeySegOverlap) {
+		t.Skip("listed as known finding")
+	}
+	spec, disk, srv := c29RegressRecording(t, 50, 3, 40, 7, 0)
+	var target *rbRec
+	for i := range disk[0].Tracks[0] {
+		r := &disk[0].Tracks[0][i]
+		if r.Seg+1 < len(disk[0].Segs) && !r.Fed.T.Before(disk[0].Segs[r.Seg+1].Start.Add(time.Millisecond)) {
+			target = r
+		}
+	}
+	if target == nil {
+		t.Fatalf("harness: no video sample of a segment lies after the start of the next segment")
+	}
+	s := target.Fed.T.Add(-time.Millisecond)
+	for _, format := range []string{"fmp4", "mp4"} {
+		if err := c29OneGet(srv, disk, spec, s, 200*time.Millisecond, "200ms", format, 0, 1); err != nil {
+			t.Errorf("/get %s start=1 ms before video unit %d (in segment %d, next segment starts at %v relative to it): %v",
+				format, target.Fed.Idx, target.Seg, disk[0].Segs[target.Seg+1].Start.Sub(target.Fed.T), err)
+		}
+	}
+}
